@@ -8,8 +8,8 @@ CONSTANTS
   Forge64 = {"resign_stranger"}
   Forge22 = {"resign_stranger"}
   Forge32 = {"resign_stranger"}
-  MaxReq = 7
-  WithMutants = FALSE
+  MaxReq = 5
+  WithMutants = TRUE
 CONSTRAINT Bound
 INVARIANTS TypeOK InOrder ErrorsHaveNoEffect NoTokenNoService FinalKills EffectsNeedProof ProvenOnlyByHonest64 ForgedRefused RedirectNeedsRegistration
 PROPERTIES DeadStaysDead StoresChangeOnlyByProtocol
